@@ -34,6 +34,7 @@ from __future__ import annotations
 
 import io
 import itertools
+import os
 import sys
 
 from .. import explore, imgkit, world
@@ -224,6 +225,23 @@ def impl_check(L, cls, spec):
 
 
 EXPECT_EXC = dict(base=("ValueError",), syntax=("StyleError",), value=("ValueError", "StyleError"))
+WS_CHARS = "\n\t\r"      # control whitespace: never part of a sentence (a space is a symbol of ALPHABET already)
+
+
+def expected_exc(ref_kind, spec):
+    """Documented error classes for a rejected specifier.  With a control-whitespace character the specifier is
+    no sentence whichever part it lands in; either documented class is accepted for those."""
+    for ch in WS_CHARS:
+        if ch in spec:
+            return ("ValueError", "StyleError")
+    return EXPECT_EXC[ref_kind]
+
+
+def ws_variants(spec):
+    """*spec* with one control-whitespace character as prefix, at every infix position, and as suffix."""
+    for ch in WS_CHARS:
+        for i in range(len(spec) + 1):
+            yield spec[:i] + ch + spec[i:]
 
 
 def shape_of(spec):
@@ -346,20 +364,36 @@ def compare(col, L, style, cls, spec, ref, part, got=None, term=TERM, phase="fir
             col.violation(_sig(spec, clause="accepts-non-sentence", style=style, why=ref[0]),
                           f"{style}: {spec!r} is not a sentence of the documented grammar ({ref[0]} part) but "
                           f"was accepted as {got[1]!r}", case)
-        elif got[0] not in EXPECT_EXC[ref[0]]:
+        elif got[0] not in expected_exc(ref[0], spec):
             col.violation(_sig(spec, clause="error-class", style=style, why=ref[0], exc=got[0]),
                           f"{style}: {spec!r} ({ref[0]} part invalid) raised {got[0]}: {got[1]}; documented: "
                           f"{' or '.join(EXPECT_EXC[ref[0]])}", case)
     return got
 
 
-def check_strings(col, L, specs, part, state_every=20000):
+def with_ws(specs, counter):
+    """*specs*, each sentence (for at least one style) followed by its control-whitespace variants."""
+    for spec in specs:
+        yield spec
+        fields, style_spec = ref_base(spec)
+        if fields is not None and (style_spec is None or
+                                   any(ref_style(st, style_spec)[0] == "ok" for st in STYLES)):
+            for v in ws_variants(spec):
+                counter[0] += 1
+                yield v
+
+
+def check_strings(col, L, specs, part, state_every=20000, ws=True):
     """Acceptance / interpretation for an iterable of strings x the three styles; the class state must
-    be the same after every batch."""
+    be the same after every batch.  With *ws*, every string whose base part is a sentence is followed by the
+    same string with one control-whitespace character (newline, tab, CR) at every position."""
     cl = [(style, classes(L)[style]) for style in STYLES]
     StyleError = L.common.StyleError
     before = class_state(L)
     n = 0
+    if ws:
+        nws = [0]
+        specs = with_ws(specs, nws)
     for spec in specs:
         fields, style_spec = ref_base(spec)
         for style, cls in cl:
@@ -393,6 +427,8 @@ def check_strings(col, L, specs, part, state_every=20000):
                               dict(kind="spec", style=None, spec=spec))
                 before = after
     col.count(3 * n)
+    if ws:
+        col.inc("strings_with_control_whitespace", nws[0])
     if class_state(L) != before:
         col.violation(dict(clause="side-effect", part=part), "class / global state changed by _check_format_spec",
                       dict(kind="spec", style=None, spec=""))
@@ -439,7 +475,7 @@ def format_case(col, L, style, spec, deep=True):
         if got[0] == "ok":
             col.violation(_sig(spec, clause="accepts-non-sentence", style=style, why=ref[0], via="format"),
                           f"{style}: format(image, {spec!r}) succeeded for a non-sentence", case)
-        elif got[0] not in EXPECT_EXC[ref[0]]:
+        elif got[0] not in expected_exc(ref[0], spec):
             col.violation(_sig(spec, clause="error-class", style=style, why=ref[0], exc=got[0], via="format"),
                           f"{style}: format(image, {spec!r}) raised {got[0]}: {got[1]}", case)
         if out.getvalue():
@@ -522,7 +558,7 @@ def other_entry_points(col, L, spec):
         elif ref[0] == "ok" and res[1] != format(img, spec):
             col.violation(dict(clause="entry-point-format", via="ImageIterator"),
                           f"first frame of ImageIterator(image, 1, {spec!r}) != format(image, {spec!r})", case)
-        elif ref[0] != "ok" and res[0] not in EXPECT_EXC[ref[0]]:
+        elif ref[0] != "ok" and res[0] not in expected_exc(ref[0], spec):
             col.violation(_sig(spec, clause="error-class", via="ImageIterator", exc=res[0], style=style, why=ref[0]),
                           f"ImageIterator(image, 1, {spec!r}) raised {res[0]}", case)
         col.count()
@@ -588,6 +624,73 @@ def iterator_style_case(col, L, style, spec):
     finally:
         p1.close()
         p2.close()
+
+
+_STATE_FILES = {}
+
+
+def state_file(tag):
+    key = (os.getpid(), tag)
+    p = _STATE_FILES.get(key)
+    if p is None:
+        p = _STATE_FILES[key] = imgkit.png(2, 2, path=os.path.join(imgkit.tmpdir(), f"c19-{key[0]}-{tag}.png"))
+    return p
+
+
+def image_state_cases(col, L, style, specs):
+    """Rejected specifiers through format() on an image that is live (file-sourced), finalized, or whose source
+    file has vanished: whether a specifier is a sentence does not depend on the image - the documented error
+    class wins and the source is not opened."""
+    import PIL.Image
+
+    world.setup(IDENT[style], TERM[0], TERM[1], cell=CELL)
+    cls = classes(L)[style]
+    images = dict(live=cls.from_file(state_file("live"), width=2, height=1),
+                  closed=cls.from_file(state_file("live"), width=2, height=1),
+                  missing=cls.from_file(state_file("gone"), width=2, height=1))
+    images["closed"].close()
+    gone = state_file("gone")
+    opens = []
+    real_open = PIL.Image.open
+
+    def counting_open(*a, **k):
+        opens.append(a[:1])
+        return real_open(*a, **k)
+
+    os.rename(gone, gone + ".away")
+    PIL.Image.open = counting_open
+    try:
+        for spec in specs:
+            ref = ref_parse(spec, style)
+            if ref[0] == "ok":
+                continue
+            allowed = expected_exc(ref[0], spec)
+            for state, img in images.items():
+                case = dict(kind="image-state", style=style, spec=spec, state=state)
+                del opens[:]
+                col.count()
+                col.inc("image_state_cases")
+                try:
+                    format(img, spec)
+                    got = "ok"
+                except world.HarnessError:
+                    raise
+                except Exception as e:
+                    got = "StyleError" if isinstance(e, L.common.StyleError) else type(e).__name__
+                    if isinstance(e, ValueError) and got not in ("StyleError",):
+                        got = "ValueError" if type(e) is ValueError else got
+                if got not in allowed:
+                    col.violation(_sig(spec, clause="error-class", style=style, why=ref[0], exc=got, via="format",
+                                       image_state=state),
+                                  f"{style}: format(<{state} image>, {spec!r}) -> {got}; the specifier is not a "
+                                  f"sentence ({ref[0]} part), documented: {' or '.join(allowed)}", case)
+                elif opens:
+                    col.violation(dict(clause="side-effect", part="format-opens-source", image_state=state),
+                                  f"{style}: format(<{state} image>, {spec!r}) was rejected with {got} but opened "
+                                  f"the source {len(opens)} time(s)", case)
+    finally:
+        PIL.Image.open = real_open
+        os.rename(gone + ".away", gone)
 
 
 def urwid_first_case(col, L, style, spec):
@@ -743,6 +846,17 @@ def _shard(items):
                                   f"{style}: {spec!r}: {type(e).__name__}: {e}", dict(kind="format", style=style, spec=spec))
             world.uninstall()
             world.setup("kitty", TERM[0], TERM[1], cell=CELL)
+        elif kind == "image-state":
+            style, specs = arg
+            try:
+                image_state_cases(col, L, style, specs)
+            except world.HarnessError:
+                raise
+            except Exception as e:
+                col.violation(dict(clause="exception", exc=type(e).__name__, via="image-state", style=style),
+                              f"{style}: {type(e).__name__}: {e}", dict(kind="image-state", style=style, spec=specs[0],
+                                                                         state="live"))
+            world.setup("kitty", TERM[0], TERM[1], cell=CELL)
         elif kind == "iterator":
             style, specs = arg
             for spec in specs:
@@ -832,6 +946,12 @@ def run(ctx):
         items.append(("entry", c))
     for style in ("kitty", "iterm2"):
         items.append(("iterator", (style, ITER_SPECS[style])))
+    # rejected specifiers x image state {live, closed, source file missing}
+    state_specs = ["".join(t) for k in (1, 2) for t in itertools.product(ALPHABET, repeat=k)] + \
+        product[::5 if quick else 1]
+    for style in STYLES:
+        for c in chunks(state_specs, 600):
+            items.append(("image-state", (style, c)))
     for col in explore.pmap(_shard, explore.rotate(items), chunks_per_proc=16):
         ctx.merge(col)
     if quick is False and maxlen < 6:
@@ -883,6 +1003,8 @@ def replay(ctx, case):
     elif kind == "iterator":
         _GIF = imgkit.gif(2, 2, 2)
         iterator_style_case(ctx, L, case["style"], case["spec"])
+    elif kind == "image-state":
+        image_state_cases(ctx, L, case["style"], [case["spec"]])
     elif kind == "urwid-first":
         _GIF = imgkit.gif(2, 2, 2)
         urwid_first_case(ctx, L, case["style"], case["spec"])
